@@ -142,7 +142,7 @@ SPEC = {
             ">= 2 transitions; distinct = distinct request lines",
     "assumptions": [
         "the Lean function `llRun` mirrors LLKParser::parse_into up to the first syntax error; agreement (result, action trace, tree events, comments) is observed on the explored runs",
-        "error recovery is modelled abstractly (Props/C01e: rRun = parse_into's control flow with the recovery procedure as an ARBITRARY oracle): recovery_off_eq_llRun, recovery_changes_only_errors (if the plain run succeeds every recovery gives the same output) and recovery_never_ok / recovery_verdict_iff (a run with recovery succeeds only if the plain run does) under NoDrain — the recovery does not return through the two "cannot recover" exits that move the error entries out of the parser (parser_types.rs l.640-653, l.729-737); recovery_drain_can_succeed shows that on hand-tampered tables (no terminal string restorable) that exit loses the error and parse_into returns Ok — reproduced on the real parser (harness/examples/c01e_drain_probe.rs), not reachable with tables parol generates as far as explored: with recovery on the verdict ok / not-ok of every explored run is compared with the model",
+        "error recovery is modelled abstractly (Props/C01e: rRun = parse_into's control flow with the recovery procedure as an ARBITRARY oracle): recovery_off_eq_llRun, recovery_changes_only_errors (if the plain run succeeds every recovery gives the same output) and recovery_never_ok / recovery_verdict_iff (a run with recovery succeeds only if the plain run does) under NoDrain — the recovery does not return through the two cannot-recover exits that move the error entries out of the parser (parser_types.rs l.640-653, l.729-737); recovery_drain_can_succeed shows that on hand-tampered tables (no terminal string restorable) that exit loses the error and parse_into returns Ok — reproduced on the real parser (harness/examples/c01e_drain_probe.rs), not reachable with tables parol generates as far as explored: with recovery on the verdict ok / not-ok of every explored run is compared with the model",
         "completeness is a theorem about the model under TablesExact (the automata predict the right production on every reference lookahead string); for the model generator genTables that hypothesis is a theorem (pipeline_tables_exact), and genTables is tied to the real generator byte for byte; independently it is DECIDED for every real table set explored by the verified checker tablesExactB (tablesExactB_sound), and the equality with the ORIGINAL grammar's language (through parol's transformations) is covered per explored grammar by the verified membership oracle",
         "the token sequence is the one the real TokenStream delivers for the rendered text (scanner behaviour is C13)",
         "front to back (Props/C01d): parolLL composes the models of canonicalisation, grammar checks, left factoring, parol's numbering and genTables; the composition is tied to the real pipeline (obtain_grammar_config_from_string, check_and_transform_grammar, calculate_lookahead_dfas, generate_parser_export_model) byte for byte on random EBNF grammars; in the EBNF model a terminal is one number (rendered as the string literal \"t<n>\"), i.e. terminals of different kinds with the same text (finding F11) are outside this tie",
